@@ -48,13 +48,14 @@ def run_variant(ctx, name, h, drv, model):
     quick = ctx.tier == "quick"
     cases = [dict(cipher=c, mac=m, zip=z, ttl=300, auth_uid=cc.ANY, auth_gid=cc.ANY, data=K.payload(r, n), realm=b"",
                   uid=4000 + i, gid=5000 + i, now=1000000, rnd=bytes(r.randrange(256) for _ in range(24)))
-             for i, (c, m, z, n) in enumerate([(0, 5, 0, 20), (4, 5, 0, 33), (2, 3, 3, 200), (5, 6, 0, 1), (3, 2, 2, 120), (4, 5, 0, 0)])]
+             # (sizes 23 / 15: the inner layer, 41 + n bytes, is a whole number of cipher blocks, so the last block is pure padding)
+             for i, (c, m, z, n) in enumerate([(0, 5, 0, 20), (4, 5, 0, 23), (2, 3, 3, 200), (5, 6, 0, 1), (3, 2, 0, 15), (4, 5, 0, 0), (3, 2, 2, 120), (4, 5, 0, 33)])]
     pre = ["cred conf mackey=%s dekkey=%s" % (K.MK.hex(), K.DK.hex())]
     ops, res = K.encode_all(h, cases, pre=pre)
     raws = [K.raw_of(rsp.data) for e, rsp in res if rsp.ok and rsp.error_num == 0]
-    ctx.obligation("setup", "%s: %d/6 seed credentials minted" % (name, len(raws)), len(raws) == 6)
+    ctx.obligation("setup", "%s: %d/8 seed credentials minted" % (name, len(raws)), len(raws) == 8)
     emitted = set(raws)
-    eds = edits(r, raws if not quick else raws[:4], 120 if quick else None)
+    eds = edits(r, raws if not quick else raws[:5], 120 if quick else None)
     ops = list(pre) + ["cred replay-reset"]
     kinds = ["skip", "skip"]
     for kind, raw in eds:
@@ -121,8 +122,57 @@ def run_variant(ctx, name, h, drv, model):
                           {"stream": name, "ops": [ops[0], ops[i] if i < len(ops) else "(end)"], "impl_output": (bad[2] if bad else err[-2000:])}, found_input=True)
 
 
+def large_real(ctx, h):
+    """alterations of LARGE credentials on the real primitives (the MAC is fed in more than one piece of any plausible chunk
+    size; alterations sit before, at and after 2^16 and in the tail)"""
+    r = ctx.rng
+    pre = ["cred conf mackey=%s dekkey=%s" % (K.MK.hex(), K.DK.hex())]
+    cases = [dict(cipher=c, mac=m, zip=0, ttl=300, auth_uid=cc.ANY, auth_gid=cc.ANY, data=r.randbytes(n), realm=b"", uid=41, gid=42, now=1000000, rnd=bytes(range(24)))
+             for (c, m, n) in [(0, 5, 70000), (4, 3, 100000), (0, 2, 200000)]]
+    _, res = K.encode_all(h, cases, pre=pre)
+    ops, kinds = list(pre), ["skip"]
+    for e, rsp in res:
+        if not (rsp.ok and rsp.error_num == 0):
+            ops.append("cred replay-reset"); kinds.append("mint-failed"); continue
+        raw = K.raw_of(rsp.data)
+        pos = sorted({40, 100, 65535, 65536, 65537, 65600, len(raw) - 70000 if len(raw) > 70000 else 50, len(raw) - 4465, len(raw) - 1000, len(raw) - 17, len(raw) - 1}
+                     | {r.randrange(30, len(raw)) for _ in range(25)} | {r.randrange(max(30, len(raw) - 65536), len(raw)) for _ in range(15)})
+        for k in pos:
+            if 0 <= k < len(raw):
+                ops.append("cred req %s now=1000005 peer=1:1 mem=-" % cc.hx(cc.dec_req(K.rearmor(raw[:k] + bytes([raw[k] ^ (1 << r.randrange(8))]) + raw[k + 1:]))))
+                kinds.append("bitflip-large")
+        for k in (len(raw) - 1, len(raw) - 16, len(raw) - 4464, 65536 + 60):
+            ops.append("cred req %s now=1000005 peer=1:1 mem=-" % cc.hx(cc.dec_req(K.rearmor(raw[:k])))); kinds.append("truncate-large")
+        a = len(raw) - 2000
+        ops.append("cred req %s now=1000005 peer=1:1 mem=-" % cc.hx(cc.dec_req(K.rearmor(raw[:a] + raw[a + 16:a + 32] + raw[a:a + 16] + raw[a + 32:])))); kinds.append("blockswap-large")
+    rc, out, err = cbuild.run_lines([h], ops)
+    ctx.count(len(ops))
+    for k in kinds:
+        ctx.dist("altered-real-large_" + k)
+    bad = None
+    for i, l in enumerate(out[:len(ops)]):
+        if kinds[i] == "skip":
+            continue
+        if kinds[i] == "mint-failed":
+            bad = bad or (i, "a large valid request could not be encoded", l); continue
+        rsp, kv = cc.rsp_of(l)
+        if not rsp.ok or rsp.kind != "dec":
+            bad = bad or (i, "no well-formed decode reply", l)
+        elif rsp.error_num in (0, 15, 16, 17):
+            bad = bad or (i, "altered large credential (%s) was accepted: error code %d" % (kinds[i], rsp.error_num), l[:300])
+        elif not K.sanitized(rsp):
+            bad = bad or (i, "rejection of an altered large credential discloses fields", l[:300])
+    crashed = rc != 0 or len(out) != len(ops)
+    ctx.obligation("oracle", "stream altered-real-large: %d alterations of 70-200 kB credentials on the real primitives" % (len(ops) - 1), bad is None and not crashed,
+                   (bad[1] if bad else "") + (err[-1500:] if crashed else ""))
+    if bad or crashed:
+        i = bad[0] if bad else len(out)
+        ctx.violation("altered credential (real primitives, large): " + (bad[1] if bad else "sanitizer/crash"),
+                      {"stream": "altered-real-large", "ops": [ops[0], ops[i] if i < len(ops) else "(end)"], "impl_output": (bad[2] if bad else err[-2000:])}, found_input=True)
+
+
 def run(ctx):
-    ctx.rule = ("byte-level edits of 6 (quick: 4) credentials minted by the implementation over cipher/MAC/zip combinations: bit flips (quick: 120 sampled + first 40 + last 16 bits per credential; "
+    ctx.rule = ("byte-level edits of 8 (quick: 5) credentials (two with a pure-padding last cipher block) minted by the implementation over cipher/MAC/zip combinations: bit flips (quick: 120 sampled + first 40 + last 16 bits per credential; "
                 "thorough: every bit), truncation at every length, extensions, cipher-block swaps, splices of every ordered pair at field boundaries, header-byte rewrites, armor variants, "
                 "and credentials minted under a different MAC key; edits that decode to an emitted body are not alterations. distinct = distinct op lines")
     ctx.assumptions += ["cryptographic strength enters only through the named hypotheses Unforgeable / KeySeparation of the theorems",
@@ -137,7 +187,9 @@ def run(ctx):
     drv = leanlib.driver(ctx)
     htoy = cc.build_toy(ctx)
     hreal = cc.build_real(ctx)
-    if not drv or not htoy or not hreal:
-        return
-    run_variant(ctx, "altered-toy", htoy, drv, True)
-    run_variant(ctx, "altered-real", hreal, drv, False)
+    # (a harness that does not build is a failed obligation already; the other variant still runs)
+    if drv and htoy:
+        run_variant(ctx, "altered-toy", htoy, drv, True)
+    if hreal:
+        run_variant(ctx, "altered-real", hreal, drv, False)
+        large_real(ctx, hreal)
